@@ -33,7 +33,11 @@ static void setup()
 {
     std::memset(g_g.raw, 0, sizeof g_g.raw);
     new (&g_g.g.distFun_) G::DistanceFunction(dist);
+#ifdef OFFSET
+    g_g.g.offset_ = OFFSET;          // case split: the rotation offset of the child order (symbolic indices into the child array explode)
+#else
     g_g.g.offset_ = nondet_uchar() & 7;
+#endif
     g_g.g.maxNumPtsPerLeaf_ = 50; g_g.g.degree_ = SZ; g_g.g.minDegree_ = 2; g_g.g.maxDegree_ = 6; g_g.g.rebuildSize_ = ~(std::size_t)0;
     // EVERY metric on the ids: symmetric, zero diagonal, integer values 0..7, triangle inequality
 #pragma clang loop unroll(full)
@@ -50,7 +54,11 @@ static void setup()
 #pragma clang loop unroll(full)
             for (int k = 0; k < NID; ++k) __CPROVER_assume(g_D[i][k] <= g_D[i][j] + g_D[j][k]);
     new (&g_par.n) Node(SZ, 4, 99);
+#ifdef JSUB
+    g_J = JSUB;                     // case split: the subtree that holds the element x
+#else
     g_J = nondet_uchar() % SZ;
+#endif
 #pragma clang loop unroll(full)
     for (int i = 0; i < SZ; ++i)
     {
@@ -140,7 +148,11 @@ extern "C" void harness_visit_k()
 {
     setup();
     G::NearQueue nbh; G::NodeQueue nq;
+#ifdef HAVE
+    unsigned have = HAVE;                                 // case split: neighbours found before this visit
+#else
     unsigned have = nondet_uchar() % (KNN + 1);          // neighbours found before this visit
+#endif
     double d0 = smallv(), d1 = smallv();
     __CPROVER_assume(d0 >= d1);                           // max-heap order of the two-element queue
     g_nbuf[0] = NearE(d0, &g_old[0]); g_nbuf[1] = NearE(d1, &g_old[1]);
@@ -189,6 +201,7 @@ extern "C" void harness_add()
         for (int k = 0; k < SZ; ++k) { minR[i][k] = g_ch[i].n.minRange_[k]; maxR[i][k] = g_ch[i].n.maxRange_[k]; }
     }
     g_g.g.size_ = 5;
+    g_g.g.maxNumPtsPerLeaf_ = ~0u;                 // leaves never split in this step (split/k-centers are not part of the claim)
     g_par.n.add(g_g.g, g_q);                      // element 0 is added below this internal node
     VT_CHECK(g_g.g.size_ == 6, "add increases the size by one");
     int where = -1, total = 0;
